@@ -61,6 +61,7 @@ type FnExec struct {
 	entry    *State
 	globErrs map[*ssa.Global]*Term
 	crossMode map[string]bool
+	symMemo map[*Term]map[string]bool
 	idxNames map[int]*Term
 	tcMu sync.Mutex
 	curStatic []types.Type
@@ -1480,6 +1481,11 @@ func (x *FnExec) makeMap(fr *Frame, v *ssa.MakeMap, st *State) Value {
 	st.setHeap(dom, tc.Store(dh, r, x.constArray(SArr(ks, SBool), tc.False())))
 	ch := st.getHeap(card, SArr(rs, rs))
 	st.setHeap(card, tc.Store(ch, r, x.refConst(0)))
+	if x.isBoolMap(mt) {
+		_, val, _, _, vs := x.mapHeaps(st, mt)
+		vh := st.getHeap(val, SArr(rs, SArr(ks, vs)))
+		x.addFact(tc.Eq(x.cntTrue(x.constArray(SArr(ks, SBool), tc.False()), tc.Select(vh, r)), x.refConst(0)))
+	}
 	return r
 }
 
@@ -1540,7 +1546,15 @@ func (x *FnExec) mapUpdate(fr *Frame, v *ssa.MapUpdate, st *State, g *Term) {
 	nv := fr.val(v.Value)
 	if vs != "" {
 		h := st.getHeap(val, SArr(rs, SArr(ks, vs)))
-		st.setHeap(val, tc.Store(h, m, tc.Store(tc.Select(h, m), k, x.asComparable(nv).(*Term))))
+		nvt := x.asComparable(nv).(*Term)
+		if x.isBoolMap(mt) {
+			oldDom, oldVal := tc.Select(dh, m), tc.Select(h, m)
+			newDom, newVal := tc.Store(oldDom, k, tc.True()), tc.Store(oldVal, k, nvt)
+			one, zero := x.refConst(1), x.refConst(0)
+			delta := x.intSub(tc.Ite(nvt, one, zero), tc.Ite(tc.And(was, tc.Select(oldVal, k)), one, zero))
+			x.assume(g, tc.Eq(x.cntTrue(newDom, newVal), x.intAdd(x.cntTrue(oldDom, oldVal), delta)))
+		}
+		st.setHeap(val, tc.Store(h, m, tc.Store(tc.Select(h, m), k, nvt)))
 		return
 	}
 	var ls []leaf
@@ -1550,6 +1564,17 @@ func (x *FnExec) mapUpdate(fr *Frame, v *ssa.MapUpdate, st *State, g *Term) {
 		h := st.getHeap(val+l.path, SArr(rs, SArr(ks, l.sort)))
 		st.setHeap(val+l.path, tc.Store(h, m, tc.Store(tc.Select(h, m), k, flat[i])))
 	}
+}
+
+// cntTrue: number of keys k with dom[k] && val[k] (bool-valued maps); an uninterpreted function whose
+// defining update equations are emitted at every map update / iteration step.
+func (x *FnExec) cntTrue(dom, val *Term) *Term {
+	return x.tc.UF("cnttrue", x.refSort(), dom, val)
+}
+
+func (x *FnExec) isBoolMap(mt *types.Map) bool {
+	b, ok := mt.Elem().Underlying().(*types.Basic)
+	return ok && b.Info()&types.IsBoolean != 0
 }
 
 func (x *FnExec) mapDelete(st *State, mt *types.Map, m, k *Term) {
@@ -1591,6 +1616,12 @@ func (x *FnExec) rangeInit(fr *Frame, v *ssa.Range, st *State, g *Term) Value {
 		unsupp("range over map with compound key")
 	}
 	// visited-set model: nothing visited yet
+	if x.isBoolMap(mt) {
+		_, valK, _, _, vs := x.mapHeaps(st, mt)
+		rs := x.refSort()
+		valArr := x.tc.Select(st.getHeap(valK, SArr(rs, SArr(ks, vs))), fr.val(v.X).(*Term))
+		x.assume(g, x.tc.Eq(x.cntTrue(x.constArray(SArr(ks, SBool), x.tc.False()), valArr), x.refConst(0)))
+	}
 	st.setCell(v, TupleV{x.constArray(SArr(ks, SBool), x.tc.False()), x.refConst(0)})
 	return &mapIter{mt: mt, m: fr.val(v.X).(*Term), rng: v}
 }
@@ -1620,6 +1651,14 @@ func (x *FnExec) rangeNext(fr *Frame, v *ssa.Next, st *State, g *Term) Value {
 	x.assume(g, tc.And(x.intLe(x.refConst(0), count), x.intLe(count, card)))
 	x.assume(g, tc.Implies(okT, tc.And(tc.Not(isNil), tc.Select(domArr, k), tc.Not(tc.Select(visited, k)), x.intLt(count, card))))
 	x.assume(g, tc.Implies(tc.Not(okT), tc.And(tc.Eq(count, card), tc.Or(isNil, tc.Forall([]*Term{bk}, tc.Implies(tc.Select(domArr, bk), tc.Select(visited, bk)))))))
+	if x.isBoolMap(mt) {
+		_, valK, _, _, vs := x.mapHeaps(st, mt)
+		valArr := tc.Select(st.getHeap(valK, SArr(rs, SArr(ks, vs))), it.m)
+		one, zero := x.refConst(1), x.refConst(0)
+		x.assume(g, tc.Implies(okT, tc.Eq(x.cntTrue(tc.Store(visited, k, tc.True()), valArr), x.intAdd(x.cntTrue(visited, valArr), tc.Ite(tc.Select(valArr, k), one, zero)))))
+		x.assume(g, tc.Implies(tc.Not(okT), tc.Eq(x.cntTrue(visited, valArr), x.cntTrue(domArr, valArr))))
+		x.assume(g, tc.And(x.intLe(zero, x.cntTrue(visited, valArr)), x.intLe(x.cntTrue(visited, valArr), count)))
+	}
 	st.setCell(it.rng, TupleV{tc.Ite(okT, tc.Store(visited, k, tc.True()), visited), tc.Ite(okT, x.intAdd(count, x.refConst(1)), count)})
 	val := x.mapValHeapRead(st, mt, it.m, k)
 	return TupleV{okT, k, val}
